@@ -1148,8 +1148,9 @@ def run(ctx):
     check_position_translation(ctx, facts)
     check_batch_persist(ctx, facts)
     check_index(ctx, facts)
-    from .c06 import check_entry_scan_bound
+    from .c06 import check_entry_scan_bound, check_alloc_rounding
     check_entry_scan_bound(ctx, facts, rid="C09.4")
+    check_alloc_rounding(ctx, facts, rid="C09.4")
     ctx.assume("NOT decided: the provisional `TAIL_FLAG|id, 0` persist before the tail read, tail block ids versus recovery's synthetic ids (value-level), the AtLeastOnce redelivery bound")
     ctx.assume("discarded results of WalIndex::set and a poisoned index lock silently skip persistence: I/O-failure behaviour outside this property's crash quantifier (recorded, not armed)")
     return {
